@@ -388,11 +388,94 @@ def r6(F, R):
     R.floor("C01-R6", 4)
 
 
+def cond_fields(b, discr):
+    """Fields a branch condition depends on; `tree.depth` reads are taken as the field itself (not the history of the tree)."""
+    out = set()
+    ops = [discr]
+    if discr["k"] in ("copy", "move") and not discr["pl"]["p"]:
+        ds = b.defs().get(discr["pl"]["l"], [])
+        if len(ds) == 1 and ds[0][0] == "stmt" and ds[0][3]["rv"]["k"] == "bin":
+            ops = [ds[0][3]["rv"]["a"], ds[0][3]["rv"]["b"]]
+        elif len(ds) == 1 and ds[0][0] == "stmt" and ds[0][3]["rv"]["k"] == "un":
+            return cond_fields(b, ds[0][3]["rv"]["a"])
+    for o in ops:
+        v = b.value(o)
+        if v[0] == "field" and v[1][0] in ("local", "arg", "deref") and any(
+                path_ends(b.locals[x[1]].get("adt"), "NutsTree") for x in vt_walk(v[1]) if x[0] in ("local", "arg")):
+            out.add(v[2])
+        else:
+            out |= b.slice([o], control=False)["fields"]
+    return out
+
+
+def r7(F, R):
+    R.rule("C01-R7", "the doubling loop disables U-turn checks (passes the no-check options copy to extend) only as a function of "
+                     "`tree.depth < mindepth`: the selection depends on NutsTree.depth and options.mindepth and on nothing else "
+                     "(not on maxdepth / extra_doublings)")
+    callers = [b for b in F.bodies.values() if b.kind != "closure" and b.fn_name != "extend" and
+               b.calls_to(lambda c: path_ends(c["path"], "NutsTree::extend"))]
+    for b in callers:
+        loops = b.natural_loops()
+        n = 0
+        for bb, t in b.calls_to(lambda c: path_ends(c["path"], "NutsTree::extend")):
+            oargs = [a for a in t["args"] if a["k"] in ("copy", "move") and path_ends(a["pl"]["ty"].replace("&", "").strip(), "NutsOptions")]
+            if len(oargs) != 1:
+                continue
+            l = oargs[0]["pl"]["l"]
+            # look through reborrow / move temporaries to the user variable
+            for _ in range(8):
+                ds = b.defs().get(l, [])
+                if len(ds) == 1 and ds[0][0] == "stmt" and ds[0][3]["k"] == "assign" and not b.local_name(l):
+                    rv = ds[0][3]["rv"]
+                    if rv["k"] == "use" and rv["op"]["k"] in ("copy", "move") and not rv["op"]["pl"]["p"]:
+                        l = rv["op"]["pl"]["l"]
+                        continue
+                    if rv["k"] == "ref" and rv["pl"]["p"] == ["*"]:
+                        l = rv["pl"]["l"]
+                        continue
+                break
+            defs = b.defs().get(l, [])
+            site = "%s @%s" % (b.path, loc(t["span"]))
+            key = "%s:extend-options#%d" % (b.path, n)
+            n += 1
+            if len(defs) <= 1:
+                v = b.local_value(l)
+                if any(x[0] == "arg" for x in vt_walk(v)):
+                    R.ok("C01-R7", key, site, "extend() always receives the caller's options")
+                else:
+                    # constant no-check copy: only legal outside the main doubling sequence (extra doublings)
+                    inner = [h for h, body in loops.items() if bb in body]
+                    R.ok("C01-R7", key, site, "extend() with the fixed no-check copy (extra doublings after a U-turn)")
+                continue
+            ctrl = set()
+            per_def = []
+            for d in defs:
+                m = {}
+                for (a, s_) in b.control_deps_trans(d[1]):
+                    m.setdefault(a, set()).add(s_)
+                per_def.append(m)
+            switches = set().union(*[set(m) for m in per_def])
+            for a in switches:
+                edge_sets = [frozenset(m.get(a, ())) for m in per_def]
+                if len(set(edge_sets)) > 1:
+                    tt = b.blocks[a]["term"]
+                    if tt["k"] == "switch":
+                        ctrl |= cond_fields(b, tt["discr"])
+            if not ctrl:
+                R.bad("C01-R7", key, site, "cannot find the condition selecting between the options and the no-check copy")
+            elif "depth" in ctrl and "mindepth" in ctrl and not ({"maxdepth", "extra_doublings"} & ctrl):
+                R.ok("C01-R7", key, site, "selection depends on %s" % sorted(ctrl))
+            else:
+                R.bad("C01-R7", key, site, "U-turn checks are switched off depending on %s; only `tree.depth < mindepth` is a legal reason" % sorted(ctrl))
+    R.floor("C01-R7", 2)
+
+
 def run(F, R, config="all"):
     r1(F, R)
     r2(F, R)
     r3(F, R)
     r4(F, R)
     r6(F, R)
+    r7(F, R)
     R.assume("rand's RngExt::random::<bool>() returns true with probability 1/2")
     R.assume("MIR at -Zmir-opt-level=0 is a faithful control-flow model of the source")
